@@ -47,6 +47,14 @@ NEEDS = {
 }
 
 NEEDS2 = {
+ "C01A": ("src/fixed_priority/fully_preemptive.rs: busy-window equation evaluates the higher-priority demand at L - epsilon", "a higher-priority job released exactly one tick before the truncated window would drain AND the worst job among the dropped later offsets (three tasks, arbitrary deadlines; 0.12 % of random sets)"),
+ "C01B": ("src/fixed_priority/floating_nonpreemptive.rs + src/fixed_point.rs: per-offset search via search_with_offset(A, ...) while the right-hand side still expects A + F, masked by a saturating subtraction in search_with_offset — two sites, each harmless or loudly failing alone", "a multi-job busy window whose worst job is not the first one (offset A > 0)"),
+ "C06A": ("src/fixed_priority/floating_nonpreemptive.rs: busy-window equation evaluates the higher-priority demand at L + epsilon", "a higher-or-equal-priority release exactly when the true busy window ends: Err for limits in [L, L'), or a larger value with bursty curves"),
+ "C06B": ("src/fixed_point.rs search_with_offset: loop condition < instead of <=", "a least solution exactly equal to the divergence limit: Err instead of Ok(limit)"),
+ "C17A": ("src/edf/limited_preemptive.rs: deadline window of the other tasks' workload one tick too long (closed interval + epsilon)", "another task with a longer deadline and a further arrival step of the analysed task one tick before its shifted step: each value stays safe, but hardening DROPS the bound"),
+ "C17B": ("src/edf/floating_nonpreemptive.rs: priority-inversion bound takes min() instead of max() over the blockers", "three tasks, two potential blockers with different region lengths: adding a task lowers the bound"),
+ "C18A": ("src/arrival/curve.rs lookup_arrivals: slice::binary_search (returns the last of equal entries)", "bursty ExtrapolatingCurve and a window length exactly equal to a repeated distance: pessimistic, never unsafe"),
+ "C18B": ("src/arrival/curve.rs jobs_within_largest_known_distance: rposition instead of position", "a plain Curve whose prefix ends in a plateau, queried beyond the prefix (outside C18's stated domain of auto-extrapolating curves; breaks C11/C12/C13)"),
  "C02A": ("src/demand/mod.rs step_offsets: take_while(non-zero) instead of filter(non-zero)", "a task modelled by an ArrivalCurvePrefix (its steps_iter starts with 0): its offsets vanish from every search space"),
  "C02B": ("src/edf/limited_preemptive.rs: blocking bound taken from the latest-deadline blocker (max_by_key deadline) instead of the longest segment", "three tasks, two potential blockers, the one with the later deadline has the shorter segment"),
  "C03A": ("src/arrival/aggregated.rs SumOf::steps_iter: merges the second summand with itself", "a sum_of arrival bound whose first summand alone steps at the worst-case offset (> 0, i.e. with jitter)"),
